@@ -367,30 +367,30 @@ def extra_erased(tier, seed):
 PROPS = {
     "C01": dict(
         props_file="Props/C01.v",
-        families=[("core", NONE, 150), ("time", NONE, 100), ("fault", NONE, 50)],
+        families=[("core", NONE, 150), ("time", NONE, 100), ("fault", NONE, 50), ("exh", NONE, 3)],
         projection="C01", monitors=["C01"],
     ),
     "C02": dict(
         props_file="Props/C02.v",
-        families=[("core", NONE, 150), ("time", NONE, 100)],
+        families=[("core", NONE, 150), ("time", NONE, 100), ("exh", NONE, 3)],
         projection="C02", monitors=["C02"],
     ),
     "C03": dict(
         props_file="Props/C03.v",
-        families=[("fault", NONE, 150), ("multi", NONE, 60), ("core", NONE, 100), ("hostile", NONE, 40)],
+        families=[("fault", NONE, 150), ("multi", NONE, 60), ("core", NONE, 100), ("hostile", NONE, 40), ("exh", NONE, 3)],
         projection="C03", monitors=["C03"],
         extra=[extra_join_probe, extra_late_push],
-        level_note="Reply integrity and 'the next poll after the target has ended finishes the operation' are proved for every reachable state; that tokio actually wakes the asker (oneshot/channel-close wakers) is runtime behaviour tied only by the correspondence runs to quiescence; ask_join is modelled as a pure function of the ask's result and of how the spawned task ended (value / panic / abort), proved exact (C03_ask_join_exact) and compared with the real crate on every case (join_probe); the task itself and tokio's JoinHandle are exercised, not modelled.",
+        level_note="Reply integrity and 'the next poll after the target has ended finishes the operation' are proved for every reachable state; that tokio actually wakes the asker (oneshot/channel-close wakers) is runtime behaviour tied only by the correspondence runs to quiescence; ask_join is modelled as a pure function of the ask's result and of how the spawned task ended (value / panic / abort), proved exact (C03_ask_join_exact) and compared with the real crate on every case (join_probe); the task itself and tokio's JoinHandle are exercised, not modelled. On a multi-thread runtime the no-hang clause is violated by the real code in a rare race (KNOWN FINDING late-push-after-close, DESIGN.md 7b): acquiring the permit and pushing are one atomic step in the model.",
     ),
     "C07": dict(
         props_file="Props/C07.v",
-        families=[("core", NONE, 250), ("hostile", NONE, 50)],
+        families=[("core", NONE, 250), ("hostile", NONE, 50), ("exh", NONE, 3)],
         projection="C07", monitors=["C07"],
         level_note="Causes of ending, no spontaneous ending and reference accounting are proved; 'eventually ends' is proved as a ranking argument (the rank never rises, every enabled step of the actor lowers it or enters on_stop, a step is enabled unless the hook is blocked); that an enabled step is eventually taken is the fairness of the tokio scheduler (a woken task is eventually polled), which is outside the model (partial).",
     ),
     "C11": dict(
         props_file="Props/C11.v",
-        families=[("core", NONE, 200), ("hostile", NONE, 50), ("fault", NONE, 50)],
+        families=[("core", NONE, 200), ("hostile", NONE, 50), ("fault", NONE, 50), ("exh", NONE, 3)],
         projection="C11", monitors=["C11"],
         extra=[extra_id_stress],
     ),
@@ -402,13 +402,13 @@ PROPS = {
     ),
     "C08": dict(
         props_file="Props/C08.v",
-        families=[("core", NONE, 200), ("fault", NONE, 100)],
+        families=[("core", NONE, 200), ("fault", NONE, 100), ("exh", NONE, 3)],
         projection="C08", monitors=["C08"],
         level_note="The order theorem is about the mailbox as polled in the same pass; a message arriving between the mailbox poll and the on_run poll of one pass on a multi-thread runtime is outside the model (partial). Trusted base as for the other checks.",
     ),
     "C09": dict(
         props_file="Props/C09.v",
-        families=[("core", NONE, 150), ("time", NONE, 100), ("hostile", NONE, 50)],
+        families=[("core", NONE, 150), ("time", NONE, 100), ("hostile", NONE, 50), ("exh", NONE, 3)],
         projection="C09", monitors=["C09"],
         extra=[extra_config_probe],
     ),
@@ -477,18 +477,18 @@ PROPS = {
     ),
     "C04": dict(
         props_file="Props/C04.v",
-        families=[("core", NONE, 150), ("fault", NONE, 150)],
+        families=[("core", NONE, 150), ("fault", NONE, 150), ("exh", NONE, 3)],
         projection="C04", monitors=["C04", "C06"],
     ),
     "C05": dict(
         props_file="Props/C05.v",
-        families=[("core", NONE, 150), ("fault", NONE, 150)],
+        families=[("core", NONE, 150), ("fault", NONE, 150), ("exh", NONE, 3)],
         projection="C05", monitors=["C05"],
         extra=[extra_result_table],
     ),
     "C06": dict(
         props_file="Props/C06.v",
-        families=[("core", NONE, 150), ("fault", NONE, 100), ("hostile", NONE, 50)],
+        families=[("core", NONE, 150), ("fault", NONE, 100), ("hostile", NONE, 50), ("exh", NONE, 3)],
         projection="C06", monitors=["C06", "C04"],
     ),
 }
